@@ -115,5 +115,11 @@ def three_operators_same_step(inp):
     return {'violates': bool(bad), 'detail': bad[:3]}
 
 
+def nt_start_time(inp):
+    """the dynamics inside compute_correlations_nt use the caller's start time (explicitly time dependent system)"""
+    from replay.c15 import shift
+    return shift({'kind': 'correlations'})
+
+
 # thorough tier (bounded native sweeps): (function, inputs, obligation of the open finding it reproduces or None)
 THOROUGH = [('nt_alignment', {}, None), ('three_operators_same_step', {}, None)]
